@@ -47,6 +47,7 @@ def parse(s):
         elif tok.startswith('+'): out.append(('add', tok[1:]))
         elif tok.startswith('-#'): out.append(('rm', int(tok[2:])))
         elif tok.startswith('-k'): out.append(('rmk', int(tok[2:])))
+        elif tok.startswith('#') and tok.endswith(':=fn'): out.append(('repc', int(tok[1:-4])))
         elif tok.startswith('#'): j, b = tok[1:].split(':='); out.append(('rep', int(j), b))
         elif tok.endswith('=None'): out.append(('unset', tok[1:-5]))
         elif tok.startswith('.'): out.append(('set', tok[1:]))
@@ -85,6 +86,12 @@ def run_prop(prop, tier='quick', seed=0, extra_obs=None, functions=None, extra_a
     bad = instr.roundtrip_report()
     if bad:
         R.checker_errors.append(f'instrumentation round-trip failed for {bad}')
+    from .. import suiteguard
+    g = suiteguard.run()
+    R.extra['instrumented_suite_guard'] = g
+    if not g['ok']:
+        # the repository's own tests do not pass on the instrumented modules: the tree (or the instrumenter) is broken; no verdict is trusted
+        R.checker_errors.append(f"instrumented suite guard failed: {g['line']} {g['summary']}")
     lock = load_lock()
     locked = set(lock.get('proved', []))
     # ---- proved layer
